@@ -7,6 +7,7 @@ From Coq Require Import List QArith Reals Qreals Lia Lra Arith Bool.
 From NV Require Import Scalar.Ops Model.Common Model.Basis Model.Knots Model.Eval Model.LinAlg Model.Fit
   Proofs.Boehm Proofs.BasisR Proofs.KnotsR Proofs.EvalR Proofs.LinAlgSums Proofs.LinAlgR Proofs.LinAlgSolve Proofs.FitR Proofs.FitSurfR
   Transfer.BasisT Transfer.LinAlgT Transfer.FitT.
+From NV Require Import Proofs.FitSurfMore.
 Import ListNotations.
 
 (* [G] parameters (chord length or centripetal: any chords >= 0 with positive sum): first 0, last 1, non-decreasing,
@@ -233,3 +234,86 @@ Proof.
     destruct C as [-> | [-> | [-> | ->]]]; vm_compute; discriminate. }
   eexists. eexists. eexists. split; [vm_compute; reflexivity|]. vm_compute. reflexivity.
 Qed.
+
+(* ====================== round 2 (Proofs/FitSurfMore.v): surface interpolation from the chords; corner interpolation of approximate_surface ====================== *)
+(* [G] the span search never leaves [p, n-1]: the span hypotheses of C11_interpolate_surface_conditions always hold *)
+Theorem C11_averaged_knot_spans_in_range : forall p n (uk : list R) (u : R), (p < n)%nat ->
+  (p <= find_span_linear Rops p (compute_knot_vector Rops p n uk) n u < n)%nat.
+Proof. exact ckv_spans. Qed.
+Print Assumptions C11_averaged_knot_spans_in_range.
+
+(* [G] compute_params_surface: chords >= 0 with positive sum in every row / column -> success; both averaged parameter
+   lists have the documented length, start at 0, end at 1, are non-decreasing (strictly increasing for positive chords) *)
+Theorem C11_params_surface_spec : forall (su sv : nat) (cdsU cdsV : list (list R)),
+  (1 <= su)%nat -> (1 <= sv)%nat -> cdsU <> [] -> cdsV <> [] ->
+  (forall cds, In cds cdsU -> chords_ok su cds) -> (forall cds, In cds cdsV -> chords_ok sv cds) ->
+  exists uk vl, compute_params_surface Rops su sv cdsU cdsV = Ok (uk, vl) /\ pspec su uk /\ pspec sv vl /\
+    ((forall cds, In cds cdsU -> forall x, In x cds -> (0 < x)%R) -> pstrict su uk) /\
+    ((forall cds, In cds cdsV -> forall x, In x cds -> (0 < x)%R) -> pstrict sv vl).
+Proof. exact params_surface_spec. Qed.
+Print Assumptions C11_params_surface_spec.
+
+(* [G given pivots] C11_interpolate_surface_conditions without span hypotheses *)
+Theorem C11_interpolate_surface_conditions_pivots_only :
+  forall (pts : list (list R)) (su sv pu pv dim : nat) (cdsU cdsV : list (list R)) (uk vl : list R),
+  (pu < su)%nat -> (pv < sv)%nat -> rect (su * sv) dim pts ->
+  compute_params_surface Rops su sv cdsU cdsV = Ok (uk, vl) ->
+  let kvu := compute_knot_vector Rops pu su uk in let kvv := compute_knot_vector Rops pv sv vl in
+  (forall i, (i < su)%nat -> get2 Rops (snd (doolittle Rops (build_coeff_matrix Rops pu kvu uk su))) i i <> 0%R) ->
+  (forall i, (i < sv)%nat -> get2 Rops (snd (doolittle Rops (build_coeff_matrix Rops pv kvv vl sv))) i i <> 0%R) ->
+  exists P, interpolate_surface Rops pts su sv pu pv cdsU cdsV = Ok (P, kvu, kvv) /\ length P = (su * sv)%nat /\
+    forall u v d, (u < su)%nat -> (v < sv)%nat -> (d < dim)%nat ->
+      nth d (surface_point Rops dim pu pv kvu kvv su sv P (nth u uk 0%R) (nth v vl 0%R)) 0%R = get2 Rops pts (v + sv * u) d.
+Proof. exact interpolate_surface_conditions_pivots. Qed.
+Print Assumptions C11_interpolate_surface_conditions_pivots_only.
+
+(* [G given pivots] interpolate_surface from the chords: parameters, valid clamped averaged knot vectors, S(u_k, v_l) = Q_kl *)
+Theorem C11_interpolate_surface_conditions_full : interpolate_surface_conditions_full.
+Proof. exact interpolate_surface_from_chords. Qed.
+Print Assumptions C11_interpolate_surface_conditions_full.
+
+(* [G given pivots] approximate_surface: both passes compose; corner control points = corner data points;
+   corner interpolation when the interior knots of Eq 9.69 lie strictly in (0, 1) *)
+Theorem C11_approximate_surface_corners :
+  forall (pts : list (list R)) (su sv pu pv cu cv dim : nat) (cdsU cdsV : list (list R)) (uk vl : list R),
+  (3 <= su)%nat -> (3 <= sv)%nat -> (3 <= cu)%nat -> (3 <= cv)%nat -> (pu < cu)%nat -> (pv < cv)%nat ->
+  rect (su * sv) dim pts -> compute_params_surface Rops su sv cdsU cdsV = Ok (uk, vl) ->
+  let kvu := compute_knot_vector2 Rops pu su cu uk in let kvv := compute_knot_vector2 Rops pv sv cv vl in
+  (forall i, (i < cu - 2)%nat ->
+     get2 Rops (snd (doolittle Rops (mmul Rops (transpose Rops (approx_N Rops pu cu kvu uk su)) (approx_N Rops pu cu kvu uk su)))) i i <> 0%R) ->
+  (forall i, (i < cv - 2)%nat ->
+     get2 Rops (snd (doolittle Rops (mmul Rops (transpose Rops (approx_N Rops pv cv kvv vl sv)) (approx_N Rops pv cv kvv vl sv)))) i i <> 0%R) ->
+  exists P, approximate_surface Rops pts su sv pu pv cu cv cdsU cdsV = Ok (P, kvu, kvv) /\ length P = (cu * cv)%nat /\
+    (forall k, (k < cu * cv)%nat -> length (nth k P []) = dim) /\
+    nth 0 P [] = nth 0 pts [] /\
+    nth (cv - 1) P [] = nth (sv - 1) pts [] /\
+    nth (cv * (cu - 1)) P [] = nth (sv * (su - 1)) pts [] /\
+    nth (cv - 1 + cv * (cu - 1)) P [] = nth (sv - 1 + sv * (su - 1)) pts [] /\
+    ((forall i, (S pu <= i < cu)%nat -> (0 < knR kvu i < 1)%R) -> (forall i, (S pv <= i < cv)%nat -> (0 < knR kvv i < 1)%R) ->
+     forall d, (d < dim)%nat ->
+       nth d (surface_point Rops dim pu pv kvu kvv cu cv P 0%R 0%R) 0%R = get2 Rops pts 0 d /\
+       nth d (surface_point Rops dim pu pv kvu kvv cu cv P 0%R 1%R) 0%R = get2 Rops pts (sv - 1) d /\
+       nth d (surface_point Rops dim pu pv kvu kvv cu cv P 1%R 0%R) 0%R = get2 Rops pts (sv * (su - 1)) d /\
+       nth d (surface_point Rops dim pu pv kvu kvv cu cv P 1%R 1%R) 0%R = get2 Rops pts (sv - 1 + sv * (su - 1)) d).
+Proof. exact approximate_surface_corners. Qed.
+Print Assumptions C11_approximate_surface_corners.
+
+(* [G] Eq 9.69 knots of strictly increasing parameters with more data points than interior spans: strictly inside (0, 1) *)
+Theorem C11_approximation_knots_interior : forall (p r c : nat) (params : list R), (p < c)%nat ->
+  pspec r params -> pstrict r params -> (c - p < r)%nat ->
+  forall i, (S p <= i < c)%nat -> (0 < knR (compute_knot_vector2 Rops p r c params) i < 1)%R.
+Proof. exact ckv2_interior. Qed.
+Print Assumptions C11_approximation_knots_interior.
+
+(* [G given pivots] approximate_surface from positive chords: the corner data points are interpolated *)
+Theorem C11_approximate_surface_corners_full : approximate_surface_corners_full.
+Proof. exact approximate_surface_from_chords. Qed.
+Print Assumptions C11_approximate_surface_corners_full.
+
+(* non-vacuity: the 3 x 4 grid exS of above, degrees (2, 2), 3 x 3 control points: executable instance keeps the corners *)
+Example C11_ex_approximate_surface_corners :
+  exists P kvu kvv, approximate_surface Qops exS 3 4 2 2 3 3 exSU exSV = Ok (P, kvu, kvv) /\ length P = 9%nat /\
+    nth 0 P [] = nth 0 exS [] /\ nth 2 P [] = nth 3 exS [] /\ nth 6 P [] = nth 8 exS [] /\ nth 8 P [] = nth 11 exS [] /\
+    map (fun uv => surface_point Qops 2 2 2 kvu kvv 3 3 P (fst uv) (snd uv)) [(0,0);(0,1);(1,0);(1,1)]%Q
+      = [nth 0 exS []; nth 3 exS []; nth 8 exS []; nth 11 exS []].
+Proof. eexists. eexists. eexists. split; [vm_compute; reflexivity|]. vm_compute. repeat split. Qed.
